@@ -220,6 +220,9 @@ func ruleRenderStores(c *Ctx) []Obligation {
 			}
 		}
 	}
+	if ri := c.role("renderImports"); ri != nil {
+		entries = append(entries, ri)
+	}
 	reported := map[string]bool{}
 	seenE := map[*ssa.Function]bool{}
 	for _, e := range entries {
@@ -227,6 +230,28 @@ func ruleRenderStores(c *Ctx) []Obligation {
 			continue
 		}
 		seenE[e] = true
+		// an unexported helper (the import block printer) all of whose callers are entries themselves
+		// is judged in their context: what it stores into an object its caller has just made (a
+		// context object carrying the buffer and a sticky error) is fresh memory there
+		if !isExportedName(e.Name()) && e.Signature.Recv() != nil && !isCodeImpl(c, e) {
+			callers := g.callersOf(e)
+			covered := len(callers) > 0
+			for _, cl := range callers {
+				isEntry := false
+				for _, e2 := range entries {
+					if e2 != e && g.Reach(e2)[cl] {
+						isEntry = true
+					}
+				}
+				if !isEntry {
+					covered = false
+				}
+			}
+			if covered {
+				o.add(Discharged, fname(e), "judged in the context of its callers", e.Pos(), true, "every caller (%d) is reachable from another render entry; effects on parameters are mapped to the callers' arguments there", len(callers))
+				continue
+			}
+		}
 		bad := 0
 		total := 0
 		for _, ef := range g.Sum[e].sortedEffects() {
@@ -944,7 +969,9 @@ func ruleFSEffects(c *Ctx) []Obligation {
 			// must be dominated by the success edge of Render into a fresh buffer
 			rcalls := a.callsTo(render)
 			if len(rcalls) != 1 {
-				o.undecided(fname(f), construct, ci.Pos(), "expected exactly one call of File.Render in Save, found %d", len(rcalls))
+				// Save does not go through Render (a shared helper produces the bytes): the same
+				// requirement is judged on the paths of Save with everything inlined
+				c.saveOnPaths(o, save)
 				continue
 			}
 			rc := rcalls[0]
@@ -1542,4 +1569,112 @@ func (c *Ctx) noFuncValueOnPaths(f *ssa.Function) (bool, string) {
 		}
 	}
 	return true, ""
+}
+
+// saveOnPaths: W-FS-EFFECTS for a Save that does not call File.Render as such. On every path of
+// Save (helpers inlined, Code implementations opaque): at most one file-system mutation; none when
+// rendering, formatting or any other fallible step failed; the mutation comes after the success of
+// both, and its data argument is the formatter's result (or, with NoFormat, the raw rendering).
+func (c *Ctx) saveOnPaths(o *obs, save *ssa.Function) {
+	fn := fname(save)
+	paths, trunc := c.Paths(save, PXConfig{Opaque: c.stdOpaque(c.role("renderImports")), MaxVisits: 3, MaxDepth: 9, MaxPaths: 40000})
+	if trunc || len(paths) == 0 {
+		o.undecided(fn, "path enumeration", save.Pos(), "%d paths, truncated %v", len(paths), trunc)
+		return
+	}
+	t := newTally(o, fn, save.Pos())
+	for _, p := range paths {
+		var fs []Ev
+		var fmtEv, renderEv *Ev
+		nfmt := 0
+		for i := range p.Events {
+			e := &p.Events[i]
+			switch {
+			case e.Kind == "call" && fsMutators[e.Name]:
+				fs = append(fs, *e)
+			case e.Kind == "call" && e.Name == "go/format.Source":
+				fmtEv = e
+				nfmt++
+			case e.Kind == "call" && e.Fn != nil && e.Fn.Name() == c.renderName() && renderEv == nil:
+				renderEv = e
+			case e.Kind == "invoke" && e.Name == c.renderName() && renderEv == nil:
+				re := *e
+				renderEv = &re
+			case e.Kind == "write":
+				t.note("Save writes to no writer but the file", false, "path %s writes to %s", traceOf(p), e.Writer)
+			}
+		}
+		F := p.Facts
+		failed := false
+		for _, e := range p.Events {
+			if (e.Kind == "call" || e.Kind == "invoke") && e.Res != nil && !fsMutators[e.Name] {
+				if e.Res.Typ != nil && isErrorType(e.Res.Typ) && F.Has(eqAtom(e.Res.String(), "nil"), false) {
+					failed = true
+				}
+				if tt, ok := e.Res.Typ.(*types.Tuple); ok && tt.Len() == 2 && isErrorType(tt.At(1).Type()) && F.Has(eqAtom(e.Res.String()+"#1", "nil"), false) {
+					failed = true
+				}
+			}
+		}
+		noFormat := F.Has("recv.NoFormat", true)
+		t.note("at most one file-system mutation on a path", len(fs) <= 1, "path %s performs %d", traceOf(p), len(fs))
+		if failed {
+			t.note("the file system is not touched when rendering or formatting fails", len(fs) == 0, "path %s mutates the file system after a failure (facts %s)", traceOf(p), F)
+			continue
+		}
+		if len(fs) == 0 {
+			if p.End == "return" && renderEv != nil {
+				t.note("the file is written on every successful path", false, "path %s succeeds without writing the file", traceOf(p))
+			}
+			continue
+		}
+		e := fs[0]
+		wf := p.FactsAt(e)
+		okBefore := renderEv != nil && wf.Has(eqAtom(renderEv.Res.String(), "nil"), true) && (noFormat || (fmtEv != nil && wf.Has(eqAtom(fmtEv.Res.String()+"#1", "nil"), true)))
+		t.note("the file is written only after rendering and formatting have succeeded", okBefore, "path %s writes the file with facts %s", traceOf(p), wf)
+		var data *T
+		if ci, ok := e.In.(ssa.CallInstruction); ok {
+			for i, a := range ci.Common().Args {
+				if sl, ok := a.Type().Underlying().(*types.Slice); ok && i < len(e.Args) {
+					if b, ok := sl.Elem().Underlying().(*types.Basic); ok && b.Kind() == types.Byte {
+						data = e.Args[i]
+					}
+				}
+			}
+		}
+		okData := false
+		if data != nil && renderEv != nil {
+			ds := data.String()
+			if noFormat {
+				okData = nfmt == 0 && strings.Contains(ds, "rendered("+renderEv.Res.String()+")")
+			} else if fmtEv != nil && len(fmtEv.Args) == 1 {
+				okData = ds == fmtEv.Res.String()+"#0" && strings.Contains(fmtEv.Args[0].String(), "rendered("+renderEv.Res.String()+")")
+			}
+		}
+		t.note("the data written is exactly the rendered (and formatted) output", okData, "path %s writes %v", traceOf(p), data)
+	}
+	t.require("the file is written only after rendering and formatting have succeeded", "the file system is not touched when rendering or formatting fails", "the data written is exactly the rendered (and formatted) output")
+	t.flush()
+}
+
+func isCodeImpl(c *Ctx, f *ssa.Function) bool {
+	for _, n := range []string{c.renderName(), c.nullName()} {
+		for _, g := range c.codeImpls(n) {
+			if g == f {
+				return true
+			}
+		}
+	}
+	return false
+}
+
+// callersOf: the module functions whose summary lists f as a callee.
+func (g *CallGraph) callersOf(f *ssa.Function) []*ssa.Function {
+	var out []*ssa.Function
+	for _, h := range g.Funcs {
+		if s := g.Sum[h]; s != nil && s.Callees[f] && h != f {
+			out = append(out, h)
+		}
+	}
+	return out
 }
